@@ -23,7 +23,7 @@ public:
     }
 
     void ActivateChannel(u16 value) {
-        active_channel = value;
+        active_channel = value & 7; // CHANNEL is a 3-bit field; it indexes channels[8]
     }
     u16 GetActiveChannel() const {
         return active_channel;
